@@ -208,6 +208,17 @@ class Parser:
                 else:
                     buf.back(self.expand_macro(buf, tok, False))
                 continue
+            elif type(tok) is defs.VerbatimToken:
+                # NB: before all tests on tok.txt, verbatim text is no markup
+                if tok.environ:
+                    # for Environ() entry in Parameters.environment_defs
+                    buf.next()
+                    buf.back(self.expand_verb_env_token(tok))
+                    continue
+                else:
+                    out.append(defs.ActionToken(tok.pos))
+                    out.append(defs.TextToken(tok.pos, tok.txt,
+                                                pos_fix=tok.pos_fix))
             elif tok.txt == '$' or tok.txt == '\\(':
                 out += self.mathparser.expand_inline_math(buf, tok)
                 continue
@@ -238,16 +249,6 @@ class Parser:
                 out.append(defs.ActionToken(tok.pos))
                 txt = self.parms.special_tokens[tok.txt]
                 out.append(defs.TextToken(tok.pos, txt, pos_fix=tok.pos_fix))
-            elif type(tok) is defs.VerbatimToken:
-                if tok.environ:
-                    # for Environ() entry in Parameters.environment_defs
-                    buf.next()
-                    buf.back(self.expand_verb_env_token(tok))
-                    continue
-                else:
-                    out.append(defs.ActionToken(tok.pos))
-                    out.append(defs.TextToken(tok.pos, tok.txt,
-                                                pos_fix=tok.pos_fix))
             elif type(tok) is defs.LanguageToken:
                 if self.parms.multi_language:
                     self.parms.change_parser_lang(tok)
@@ -268,26 +269,29 @@ class Parser:
     #   - this also ensures that an empty option [] will be "something"
     #
     def arg_buffer(self, buf, start, end='}'):
+        def txt(tok):
+            # text of verbatim material never acts as delimiter
+            return None if type(tok) is defs.VerbatimToken else tok.txt
         tok = buf.skip_space()
         if not tok:
             return scanner.Buffer([defs.VoidToken(start)])
         if type(tok) is defs.ParagraphToken:
             return scanner.Buffer([defs.VoidToken(tok.pos)])
-        if end == '}' and tok.txt != '{':
+        if end == '}' and txt(tok) != '{':
             # consume single token
             buf.next()
             return scanner.Buffer([tok])
         pos = tok.pos
-        lev = 1 if tok.txt == '{' else 0
+        lev = 1 if txt(tok) == '{' else 0
         opening_tok = tok
         tok = buf.next()    # skip opening { or [
         out = []
         while tok:
-            if tok.txt == '{':
+            if txt(tok) == '{':
                 lev += 1
-            if tok.txt == '}':
+            if txt(tok) == '}':
                 lev -= 1
-            if tok.txt == end and lev == 0:
+            if txt(tok) == end and lev == 0:
                 buf.next()  # consume closing } or ]
                 if not out:
                     out = [defs.VoidToken(pos)]
